@@ -105,7 +105,8 @@ PROPS["C04"] = _hist(
 PROPS["C07"] = _hist(
     "C07", 20000, 600000,
     "Knock-out heavy histories (Gene.knock_out, knock_out_model_genes by object/id/index, Reaction.knock_out, functional flags, "
-    "rule edits, contexts) judged against truth tables over the generator's own rule trees (never cobrapy's parser).",
+    "rule edits, contexts) judged against truth tables over the generator's own rule trees (never cobrapy's parser); 15 % of the quick "
+    "and 50 % of the thorough runs drive *every* subset of the model's genes (<= 64), each in its own context and in a seeded order.",
     "Sampled histories; rules are random and/or trees of depth <= 3 over <= 6 shared genes.", "4 (C07)")
 PROPS["C10"] = _hist(
     "C10", 9000, 250000,
